@@ -114,6 +114,53 @@ func c16Exec(c *mon.Case) {
 	}
 }
 
+// c16IncrExec: symbols are registered one at a time and the same inputs are read after every registration,
+// so that anything remembered from reads before a registration (misses, fallbacks) would show.
+// payload: symbols \x01 separated \x00 inputs \x01 separated
+func c16IncrExec(c *mon.Case) {
+	parts := strings.SplitN(c.Payload, "\x00", 2)
+	syms := strings.Split(parts[0], "\x01")
+	inputs := strings.Split(parts[1], "\x01")
+	root := generic.NewSymbolRootNode()
+	types := map[string]int{}
+	var sorted []string
+	for i, s := range syms {
+		root.Add(s, 100+i)
+		types[s] = 100 + i
+		sorted = append(sorted, s)
+		sort.SliceStable(sorted, func(a, b int) bool { return len(sorted[a]) > len(sorted[b]) })
+		for _, in := range inputs {
+			if in == "" {
+				continue
+			}
+			wantText, wantType := string([]rune(in)[:1]), tokenizers.Symbol
+			for _, k := range sorted {
+				if strings.HasPrefix(in, k) {
+					wantText, wantType = k, types[k]
+					break
+				}
+			}
+			sc := rio.NewStringScanner(in)
+			var t *tokenizers.Token
+			if p := mon.Try(func() { t = root.NextToken(sc) }); p != nil {
+				c.FailPanic("SymbolRootNode.NextToken", p)
+				return
+			}
+			var rest strings.Builder
+			for ch := sc.Read(); ch != -1; ch = sc.Read() {
+				rest.WriteRune(ch)
+			}
+			if t.Value() != wantText || t.Type() != wantType || rest.String() != in[len(wantText):] {
+				c.Failf("wrong symbol text, type or consumed length after a further registration", "registered so far=%q (types 100+index), all inputs are read after every registration; input=%q: got %s%q rest=%q, want type %d %q rest=%q",
+					syms[:i+1], in, tokTypeName(t.Type()), t.Value(), rest.String(), wantType, wantText, in[len(wantText):])
+				return
+			}
+		}
+	}
+	c.AddEvals(len(syms)*len(inputs)-1, 0)
+	c.NonTrivial()
+}
+
 func permutations(xs []string, f func([]string)) {
 	var rec func(k int)
 	rec = func(k int) {
@@ -185,7 +232,7 @@ func buildC16(cfg *mon.Config) []*mon.Sub {
 	}
 	subs = append(subs, &mon.Sub{
 		Name:  "sets-random-large",
-		Rule:  "seeded random tables of 4..12 symbols of length 1..5 over {<,=,>,!,{,},a,ш,€} in random order, read on 60 random inputs each, twice; same oracle",
+		Rule:  "seeded random tables of 4..12 symbols of length 1..7 over {<,=,>,!,{,},a,ш,€} in random order, read on 60 random inputs each, twice; same oracle",
 		Floor: 100,
 		Gen: func(emit func(string)) {
 			r := cfg.Rng("c16-random")
@@ -195,7 +242,7 @@ func buildC16(cfg *mon.Config) []*mon.Sub {
 				var syms []string
 				for len(syms) < 4+r.Intn(9) {
 					var b strings.Builder
-					for j := 0; j < 1+r.Intn(5); j++ {
+					for j := 0; j < 1+r.Intn(7); j++ {
 						b.WriteString(mon.Pick(r, chars))
 					}
 					if !set[b.String()] {
@@ -208,6 +255,9 @@ func buildC16(cfg *mon.Config) []*mon.Sub {
 					var b strings.Builder
 					if r.Chance(1, 2) {
 						b.WriteString(mon.Pick(r, syms)) // make hits likely
+					} else if r.Chance(1, 2) {
+						rs := []rune(mon.Pick(r, syms)) // a proper prefix of a symbol, then something else
+						b.WriteString(string(rs[:1+r.Intn(len(rs))]))
 					}
 					for j := 0; j < 1+r.Intn(5); j++ {
 						b.WriteString(mon.Pick(r, chars))
@@ -219,6 +269,52 @@ func buildC16(cfg *mon.Config) []*mon.Sub {
 			}
 		},
 		Exec: c16Exec,
+	})
+	subs = append(subs, &mon.Sub{
+		Name:  "incremental-registration",
+		Rule:  "seeded tables of 3..10 symbols of length 1..6 over {<,=,>,!,-} (many shared prefixes), registered one at a time; after every registration every input of a fixed list (every symbol, every proper prefix of a symbol followed by another character, every symbol followed by another character) is read and compared with the longest-prefix oracle for the symbols registered so far; a case is one read",
+		Floor: 100,
+		Gen: func(emit func(string)) {
+			r := cfg.Rng("c16-incr")
+			chars := []string{"<", "=", ">", "!", "-"}
+			for i := 0; i < cfg.N(1500, 100000); i++ {
+				set := map[string]bool{}
+				var syms []string
+				for len(syms) < 3+r.Intn(8) {
+					var b strings.Builder
+					for j := 0; j < 1+r.Intn(6); j++ {
+						b.WriteString(mon.Pick(r, chars))
+					}
+					if r.Chance(1, 3) && len(syms) > 0 { // extend or cut an existing symbol
+						base := []rune(mon.Pick(r, syms))
+						b.Reset()
+						b.WriteString(string(base[:1+r.Intn(len(base))]) + mon.Pick(r, chars))
+					}
+					if !set[b.String()] {
+						set[b.String()] = true
+						syms = append(syms, b.String())
+					}
+				}
+				seen := map[string]bool{}
+				var ins []string
+				add := func(s string) {
+					if s != "" && !seen[s] {
+						seen[s] = true
+						ins = append(ins, s)
+					}
+				}
+				for _, s := range syms {
+					rs := []rune(s)
+					add(s)
+					for k := 1; k <= len(rs); k++ {
+						add(string(rs[:k]) + "x")
+						add(string(rs[:k]) + mon.Pick(r, chars))
+					}
+				}
+				emit(strings.Join(syms, "\x01") + "\x00" + strings.Join(ins, "\x01"))
+			}
+		},
+		Exec: c16IncrExec,
 	})
 	subs = append(subs, &mon.Sub{
 		Name:          "builtin-tokenizers-growth",
